@@ -140,6 +140,7 @@ def main():
         finally:
             open(path, "w").write(orig)
             sh("git -C /repo checkout -- .")
+            sh("cd /verif/r2l && ./target/debug/r2l targets.txt /repo/src ../lean/Grenad/Generated/Src > /dev/null")  # generated Lean back to the unchanged tree
         m["s"] = round(time.time() - t0, 1)
         log.write(json.dumps(m) + "\n"); log.flush()
         print(i, m["file"], m["line"], m["status"], sorted(m.get("detected_by", {}).keys()) if isinstance(m.get("detected_by"), dict) else "", flush=True)
